@@ -25,13 +25,40 @@
    and compares every JSON-RPC response with `res` (what the model of the code answers) and with
    `want` (what the property demands).
 
-   Two places where the code does not do what the property says are switches
+   Three places where the code does not do what the property says are switches
    (FALSE = the code as it is, TRUE = repaired):
      FixTxIndexMissingBlock  getTransactionByBlockIdAndIndex never checks that a block NUMBER
                              exists: an absent number yields INVALID_TXN_INDEX, not BLOCK_NOT_FOUND.
      FixZeroHashState        block_hash 0x0 is resolved by StateAtBlockHash to a pseudo state
                              ("before genesis") instead of BLOCK_NOT_FOUND, so the five state
-                             methods answer from something that is not a block of the chain. *)
+                             methods answer from something that is not a block of the chain.
+     FixLegacyZeroWriteLog   (v0.10 last_update_block) the legacy state backend logs a storage write
+                             only when trie.Put reports a change; a state-diff entry writing zero to a
+                             slot that is zero (never written, or cleared before) leaves no log, so the
+                             last-update block it reports is the one of an EARLIER write (or 0), while
+                             the new-state backend, which logs every diff entry, reports this block.
+
+   RESPONSE FLAGS (v0.10 only).  Five read methods take the optional parameter `response_flags`, a
+   list of strings: starknet_getStorageAt knows INCLUDE_LAST_UPDATE_BLOCK (the result becomes
+   {value, last_update_block}: the number of the last block at or before the requested one whose
+   state diff has an entry for that slot - whatever value it wrote, zero and unchanged values
+   included - and 0 if there is none), getBlockWithTxs / getBlockWithReceipts /
+   getTransactionByHash / getTransactionByBlockIdAndIndex know INCLUDE_PROOF_FACTS (INVOKE
+   transactions gain `proof_facts`: the stored payload, [] if the transaction carries none; without
+   the flag the field is never there).  The request dimension is the field `fl` of a read action:
+     absent / "none"  parameter omitted       "empty"  the empty list (= omitted)
+     "own"   the method's flag (once or repeated)
+     "bad"   anything else: an unknown flag, the OTHER method family's flag, a list mixing a known
+             and an unknown flag, a non-list, a non-string element  =>  INVALID_PARAMS whatever the
+             block identifier (parameters are decoded before the handler runs).
+   The implementation layer keeps the storage-history KEYS the two state backends write
+   (slog: core/state writeHistory, every diff entry; llog: core/deprecatedstate, changed leaves
+   only) and answers last_update_block the way lastUpdatedBlockNumber does: the greatest logged
+   block number <= the reader's block (unbounded for the head reader behind `latest`).
+   Expected-violation switch (never TRUE for the code as it is or as repaired):
+     LubZeroShortcut         the handler skips the history lookup when the value is zero ("an unset
+                             slot has no update to report"): a slot that was set and later cleared
+                             then reports 0 instead of the clearing block. *)
 EXTENDS Integers, Sequences, FiniteSets, TLC
 
 CONSTANTS MaxLen,        \* maximal number of blocks in the chain (numbers 0..MaxLen-1)
@@ -39,6 +66,8 @@ CONSTANTS MaxLen,        \* maximal number of blocks in the chain (numbers 0..Ma
           Txs(_, _),     \* Txs(n, v): sequence of transaction ids of the block at height n, variant v
           FixTxIndexMissingBlock,
           FixZeroHashState,
+          FixLegacyZeroWriteLog,
+          LubZeroShortcut,
           WithPreConfirmed   \* also exercise the pre_confirmed tag (no pre-confirmed data: not found)
 
 Variants == {0, 1}
@@ -69,6 +98,20 @@ TxType(t) == CASE t % 10 \in {1, 3, 8} -> "INVOKE" [] t % 10 \in {2, 7} -> "L1_H
                [] t % 10 = 4 -> "DEPLOY_ACCOUNT" [] t % 10 = 5 -> "DECLARE" [] OTHER -> "DEPLOY"
 TxReverted(t) == t % 10 = 3
 Exec(t) == IF TxReverted(t) THEN "REVERTED" ELSE "SUCCEEDED"
+(* proof facts: the INVOKE v3 transactions (digit 1) of the even heights carry a non-empty payload,
+   those of the odd heights and every other transaction carry none *)
+HasFacts(t) == t % 10 = 1 /\ (t \div 10) % 2 = 0
+(* what a v0.10 transaction object shows in `proof_facts`: "absent" (no such field), "empty" ([]),
+   "facts" (the stored payload).  AdaptTransaction (rpc/v10/transaction.go): only INVOKE objects
+   ever have the field, and only when INCLUDE_PROOF_FACTS was asked for *)
+PF(t, on) == IF ~on \/ TxType(t) # "INVOKE" THEN "absent" ELSE IF HasFacts(t) THEN "facts" ELSE "empty"
+
+(* response flags of a read action (field `fl`; actions without the field omit the parameter) *)
+FlagVals == {"none", "empty", "own", "bad"}
+Fl(a) == IF "fl" \in DOMAIN a THEN a.fl ELSE "none"
+FlagOn(a) == Fl(a) = "own"
+Unflag(a) == IF "fl" \in DOMAIN a THEN [a EXCEPT !.fl = "none"] ELSE a
+MaxOf(S) == CHOOSE x \in S : \A y \in S : y <= x
 
 --------------------------------------------------------------------------
 (* Abstract state and state diffs.  The diff of the block at height n, variant v depends on the
@@ -87,10 +130,19 @@ DiffOn(st, n, v) ==
       repl == IF n = 3 /\ v = 0 /\ st.class[1] = 1 /\ 2 \in (st.declared \cup decl1) THEN {<<1, 2>>} ELSE {}
       live(c) == ~(n = 3 /\ v = 1)      \* the block at height 3, variant 1 has an EMPTY state diff
                  /\ (st.class[c] # NoClass \/ \E d \in dep : d[1] = c)
+      (* the storage entries cover the alphabet of StateHistory.tla (C03): first write, overwrite,
+         CLEARING write (c1.s2 at height 2 variant 0), RE-WRITE of the value the slot already holds
+         (c1.s2 at height 2 variant 1), zero written to a NEVER-written slot (c2.s2 at height 2
+         variant 0), zero written to a slot that is zero again (c1.s2 at height 3 variant 0 after
+         <<..,0>>; after <<..,1>> the same entry is the first clearing); c1.s1 is written by every
+         non-empty diff, c2.s1 from height 2 on, so every slot has a different last-write block *)
       stor == (IF live(1) THEN {<<1, 1, 1 + 2 * n + v>>} ELSE {})
               \cup (IF live(1) /\ n = 1 THEN {<<1, 2, 7 + v>>} ELSE {})
               \cup (IF live(1) /\ n = 2 /\ v = 0 /\ st.stor[1][2] # 0 THEN {<<1, 2, 0>>} ELSE {})
+              \cup (IF live(1) /\ n = 2 /\ v = 1 /\ st.stor[1][2] # 0 THEN {<<1, 2, st.stor[1][2]>>} ELSE {})
+              \cup (IF live(1) /\ n = 3 /\ v = 0 THEN {<<1, 2, 0>>} ELSE {})
               \cup (IF live(2) /\ n >= 2 THEN {<<2, 1, 20 + 2 * n + v>>} ELSE {})
+              \cup (IF live(2) /\ n = 2 /\ v = 0 THEN {<<2, 2, 0>>} ELSE {})
       nonces == (IF live(1) /\ (v = 0 \/ n % 2 = 1) THEN {<<1, n + 1>>} ELSE {})
                 \cup (IF live(2) /\ n = 3 THEN {<<2, 1>>} ELSE {})
   IN [declared0 |-> decl0, declared1 |-> decl1, deployed |-> dep, replaced |-> repl,
@@ -116,17 +168,34 @@ StateTab == [p \in Paths \cup {<<>>} |-> StateOf(p)]
 DiffTab == [p \in Paths |-> DiffOn(StateTab[Front(p)], Len(p) - 1, Last(p))]
 TxsOf(p) == Txs(Len(p) - 1, Last(p))
 
+(* storage history: the block of path p has a state-diff entry for slot s of contract c ... *)
+SlotKeys == Contracts \X Slots
+WroteSlot(p, c, s) == \E x \in DiffTab[p].storage : x[1] = c /\ x[2] = s
+(* ... and the legacy backend logs it: ContractUpdater.UpdateStorage calls the history callback only
+   when trie.Put returned an old value, which it does not for zero written to an absent leaf *)
+LegacyLogs(p, c, s) ==
+  \E x \in DiffTab[p].storage :
+     x[1] = c /\ x[2] = s /\ (FixLegacyZeroWriteLog \/ ~(x[3] = 0 /\ StateTab[Front(p)].stor[c][s] = 0))
+(* the history keys a backend holds when the node holds chain c (they are written by Store and
+   deleted by Revert entry by entry; IndexesDescribeChain checks that this is what is left) *)
+SLogOf(c) == [k \in SlotKeys |-> {n \in 0..(Len(c) - 1) : WroteSlot(Prefix(c, n + 1), k[1], k[2])}]
+LLogOf(c) == [k \in SlotKeys |-> {n \in 0..(Len(c) - 1) : LegacyLogs(Prefix(c, n + 1), k[1], k[2])}]
+(* DECLARATIVE: the last block <= n of chain c whose state diff writes slot s of contract ct; 0 if none *)
+DLubIn(c, n, ct, s) ==
+  LET W == {m \in 0..n : WroteSlot(Prefix(c, m + 1), ct, s)} IN IF W = {} THEN 0 ELSE MaxOf(W)
+
 --------------------------------------------------------------------------
 VARIABLES chain,      \* ghost: the path of the head block (<<>> = empty chain)
           height, byNum, numByHash, txIdx,   \* what the database holds
+          slog, llog, \* storage-history keys per (contract, slot): new-state / legacy backend
           l1,         \* recorded L1 head number, -1 = none
           seen,       \* every path ever stored (so that reverted hashes can be asked for)
           reverts,
           act, res, want
 
-vars == <<chain, height, byNum, numByHash, txIdx, l1, seen, reverts, act, res, want>>
-view == <<chain, height, byNum, numByHash, txIdx, l1, seen, reverts>>
-dbvars == <<chain, height, byNum, numByHash, txIdx, l1, seen, reverts>>
+vars == <<chain, height, byNum, numByHash, txIdx, slog, llog, l1, seen, reverts, act, res, want>>
+view == <<chain, height, byNum, numByHash, txIdx, slog, llog, l1, seen, reverts>>
+dbvars == <<chain, height, byNum, numByHash, txIdx, slog, llog, l1, seen, reverts>>
 
 HugeNum == MaxLen + 1    \* stands for 2^64-1 (block_number) / a far-ahead L1 head
 Nums == 0..HugeNum       \* MaxLen and HugeNum are numbers no block ever has
@@ -140,6 +209,7 @@ Init ==
   /\ byNum = [n \in Nums |-> NoPath]
   /\ numByHash = [h \in HashIds |-> -1]
   /\ txIdx = [t \in AllTx \cup {BogusTx} |-> NoIdx]
+  /\ slog = [k \in SlotKeys |-> {}] /\ llog = [k \in SlotKeys |-> {}]
   /\ l1 = -1
   /\ seen = {}
   /\ reverts = 0
@@ -159,6 +229,9 @@ Store(v) ==
                        IF \E i \in 1..Len(TxsOf(p)) : TxsOf(p)[i] = t
                        THEN [n |-> n, i |-> (CHOOSE i \in 1..Len(TxsOf(p)) : TxsOf(p)[i] = t) - 1]
                        ELSE txIdx[t]]
+        \* writeHistory (core/state) logs every diff entry; the legacy state logs reported changes
+        /\ slog' = [k \in SlotKeys |-> IF WroteSlot(p, k[1], k[2]) THEN slog[k] \cup {n} ELSE slog[k]]
+        /\ llog' = [k \in SlotKeys |-> IF LegacyLogs(p, k[1], k[2]) THEN llog[k] \cup {n} ELSE llog[k]]
         /\ seen' = seen \cup {p}
         /\ act' = [name |-> "Store", v |-> v, path |-> p, parent |-> chain, txs |-> TxsOf(p),
                    diff |-> DiffTab[p]]
@@ -172,6 +245,9 @@ Revert ==
         /\ numByHash' = [numByHash EXCEPT ![p] = -1]
         /\ txIdx' = [t \in DOMAIN txIdx |->
                        IF \E i \in 1..Len(TxsOf(p)) : TxsOf(p)[i] = t THEN NoIdx ELSE txIdx[t]]
+        \* deleteHistory / performStateDeletions: the key (slot, height) of every entry of the diff
+        /\ slog' = [k \in SlotKeys |-> IF WroteSlot(p, k[1], k[2]) THEN slog[k] \ {height} ELSE slog[k]]
+        /\ llog' = [k \in SlotKeys |-> IF WroteSlot(p, k[1], k[2]) THEN llog[k] \ {height} ELSE llog[k]]
   /\ height' = height - 1
   /\ chain' = Front(chain)
   /\ reverts' = reverts + 1
@@ -183,7 +259,7 @@ SetL1Head(n) ==
   /\ n \in Nums /\ n # l1
   /\ l1' = n
   /\ act' = [name |-> "SetL1Head", n |-> n, path |-> IF n < Len(chain) THEN Prefix(chain, n + 1) ELSE UnknownHash]
-  /\ UNCHANGED <<chain, height, byNum, numByHash, txIdx, seen, reverts>>
+  /\ UNCHANGED <<chain, height, byNum, numByHash, txIdx, slog, llog, seen, reverts>>
   /\ res' = NoRes /\ want' = NoRes
 
 --------------------------------------------------------------------------
@@ -208,12 +284,14 @@ DResolveIn(c, l, id) ==
     [] id.k = "l1_accepted" -> IF l = -1 \/ c = <<>> THEN -1 ELSE Min(l, Len(c) - 1)
     [] OTHER -> -1       \* pre_confirmed: this node holds no pre-confirmed block
 
-BlockView(p, st) ==
+(* pfs: what `proof_facts` shows in each transaction object of the block (on = INCLUDE_PROOF_FACTS given) *)
+BlockView(p, st, on) ==
   [kind |-> "block", n |-> Len(p) - 1, hash |-> p, parent |-> Front(p), status |-> st,
-   txs |-> TxsOf(p), execs |-> [i \in 1..Len(TxsOf(p)) |-> Exec(TxsOf(p)[i])]]
+   txs |-> TxsOf(p), execs |-> [i \in 1..Len(TxsOf(p)) |-> Exec(TxsOf(p)[i])],
+   pfs |-> [i \in 1..Len(TxsOf(p)) |-> PF(TxsOf(p)[i], on)]]
 
-DBlockIn(c, l, id) == LET n == DResolveIn(c, l, id) IN
-  IF n = -1 THEN Err("BlockNotFound") ELSE BlockView(Prefix(c, n + 1), Status(n, l))
+DBlockIn(c, l, id, on) == LET n == DResolveIn(c, l, id) IN
+  IF n = -1 THEN Err("BlockNotFound") ELSE BlockView(Prefix(c, n + 1), Status(n, l), on)
 
 DTxPosIn(c, t) ==   \* (n, i) of t in c, NoIdx if not there
   IF \E n \in 0..(Len(c) - 1) : \E i \in 1..Len(TxsOf(Prefix(c, n + 1))) : TxsOf(Prefix(c, n + 1))[i] = t
@@ -222,20 +300,25 @@ DTxPosIn(c, t) ==   \* (n, i) of t in c, NoIdx if not there
        IN [n |-> n, i |-> (CHOOSE i \in 1..Len(q) : q[i] = t) - 1]
   ELSE NoIdx
 
-TxView(t) == [kind |-> "tx", t |-> t, type |-> TxType(t)]
+TxView(t, on) == [kind |-> "tx", t |-> t, type |-> TxType(t), pf |-> PF(t, on)]
+(* starknet_getStorageAt with INCLUDE_LAST_UPDATE_BLOCK: lub is what the new-state backend, lubL what
+   the legacy backend must report (the property demands the same number of both) *)
+StorView(v, lub, lubL, on) == IF on THEN [kind |-> "feltlub", v |-> v, lub |-> lub, lubL |-> lubL]
+                              ELSE [kind |-> "felt", v |-> v]
 ReceiptView(t, n, p, l) == [kind |-> "receipt", t |-> t, type |-> TxType(t), n |-> n, hash |-> p,
                             fin |-> Status(n, l), exec |-> Exec(t)]
 
 DWantIn(c, l, a) ==
+  IF Fl(a) = "bad" THEN Err("InvalidParams") ELSE
   CASE a.name = "blockNumber" -> IF c = <<>> THEN Err("NoBlocks") ELSE [kind |-> "num", n |-> Len(c) - 1]
     [] a.name = "blockHashAndNumber" ->
          IF c = <<>> THEN Err("NoBlocks") ELSE [kind |-> "hashnum", n |-> Len(c) - 1, hash |-> c]
-    [] a.name \in {"getBlockWithTxHashes", "getBlockWithTxs", "getBlockWithReceipts"} -> DBlockIn(c, l, a.id)
+    [] a.name \in {"getBlockWithTxHashes", "getBlockWithTxs", "getBlockWithReceipts"} -> DBlockIn(c, l, a.id, FlagOn(a))
     [] a.name = "getBlockTransactionCount" ->
          LET n == DResolveIn(c, l, a.id) IN IF n = -1 THEN Err("BlockNotFound")
                                     ELSE [kind |-> "num", n |-> Len(TxsOf(Prefix(c, n + 1)))]
     [] a.name = "getTransactionByHash" ->
-         IF DTxPosIn(c, a.t) = NoIdx THEN Err("TxnHashNotFound") ELSE TxView(a.t)
+         IF DTxPosIn(c, a.t) = NoIdx THEN Err("TxnHashNotFound") ELSE TxView(a.t, FlagOn(a))
     [] a.name = "getTransactionReceipt" ->
          LET pos == DTxPosIn(c, a.t) IN IF pos = NoIdx THEN Err("TxnHashNotFound")
                                    ELSE ReceiptView(a.t, pos.n, Prefix(c, pos.n + 1), l)
@@ -246,7 +329,7 @@ DWantIn(c, l, a) ==
          LET n == DResolveIn(c, l, a.id) IN
          IF n = -1 THEN Err("BlockNotFound")
          ELSE IF a.i >= Len(TxsOf(Prefix(c, n + 1))) THEN Err("InvalidTxnIndex")
-         ELSE TxView(TxsOf(Prefix(c, n + 1))[a.i + 1])
+         ELSE TxView(TxsOf(Prefix(c, n + 1))[a.i + 1], FlagOn(a))
     [] a.name = "getStateUpdate" ->
          LET n == DResolveIn(c, l, a.id) IN
          IF n = -1 THEN Err("BlockNotFound")
@@ -260,7 +343,8 @@ DWantIn(c, l, a) ==
                   IF a.c \in st.declared THEN [kind |-> "class", c |-> a.c] ELSE Err("ClassHashNotFound")
              [] OTHER ->
                   IF a.c \notin Contracts \/ st.class[a.c] = NoClass THEN Err("ContractNotFound")
-                  ELSE CASE a.name = "getStorageAt" -> [kind |-> "felt", v |-> st.stor[a.c][a.s]]
+                  ELSE CASE a.name = "getStorageAt" ->
+                              StorView(st.stor[a.c][a.s], DLubIn(c, n, a.c, a.s), DLubIn(c, n, a.c, a.s), FlagOn(a))
                          [] a.name = "getNonce" -> [kind |-> "felt", v |-> st.nonce[a.c]]
                          [] a.name = "getClassHashAt" -> [kind |-> "classhash", c |-> st.class[a.c]]
                          [] OTHER -> [kind |-> "class", c |-> st.class[a.c]]
@@ -285,15 +369,24 @@ IResolve(id) ==
     [] id.k = "l1_accepted" -> IF L1AcceptedNum # -1 /\ byNum[L1AcceptedNum] # NoPath THEN L1AcceptedNum ELSE -1
     [] OTHER -> -1
 
-IBlock(id) == LET n == IResolve(id) IN
-  IF n = -1 THEN Err("BlockNotFound") ELSE BlockView(byNum[n], Status(n, l1))
+IBlock(id, on) == LET n == IResolve(id) IN
+  IF n = -1 THEN Err("BlockNotFound") ELSE BlockView(byNum[n], Status(n, l1), on)
+
+(* ContractStorageLastUpdatedBlock of the reader stateByBlockID hands out: lastUpdatedBlockNumber
+   seeks (slot, upTo) in the history bucket and steps back: the greatest logged number <= upTo, 0 if
+   none.  upTo is the reader's block; the head reader behind `latest` passes 2^64-1. *)
+ILub(log, c, s, upTo) == LET B == {m \in log[<<c, s>>] : m <= upTo} IN IF B = {} THEN 0 ELSE MaxOf(B)
+IStorView(id, c, s, v, on) ==
+  LET upTo == IF id.k = "latest" THEN HugeNum ELSE IResolve(id)
+      short == LubZeroShortcut /\ v = 0       \* the history lookup skipped for zero values
+  IN StorView(v, IF short THEN 0 ELSE ILub(slog, c, s, upTo), IF short THEN 0 ELSE ILub(llog, c, s, upTo), on)
 
 (* the state reader stateByBlockID hands out; "zero" = the pseudo state of block_hash 0x0 *)
 IStateOf(id) ==
   IF id.k = "hash" /\ id.h = ZeroHash /\ ~FixZeroHashState THEN "zero"
   ELSE IF IResolve(id) = -1 THEN "none" ELSE "block"
 
-ITxByIndex(id, i) ==
+ITxByIndex(id, i, on) ==
   LET n == CASE id.k = "num" -> id.n     \* no existence check for a number (unless repaired)
              [] id.k = "hash" -> numByHash[id.h]
              [] id.k = "latest" -> height
@@ -302,20 +395,22 @@ ITxByIndex(id, i) ==
   IN IF n = -1 THEN Err("BlockNotFound")
      ELSE IF byNum[n] = NoPath THEN (IF FixTxIndexMissingBlock THEN Err("BlockNotFound") ELSE Err("InvalidTxnIndex"))
      ELSE IF i >= Len(TxsOf(byNum[n])) THEN Err("InvalidTxnIndex")
-     ELSE TxView(TxsOf(byNum[n])[i + 1])
+     ELSE TxView(TxsOf(byNum[n])[i + 1], on)
 
 IRes(a) ==
+  IF Fl(a) = "bad" THEN Err("InvalidParams") ELSE   \* the server decodes the parameters before the handler runs
   CASE a.name = "blockNumber" -> IF height = -1 THEN Err("NoBlocks") ELSE [kind |-> "num", n |-> height]
     [] a.name = "blockHashAndNumber" ->
          IF height = -1 \/ byNum[height] = NoPath THEN Err("NoBlocks")
          ELSE [kind |-> "hashnum", n |-> height, hash |-> byNum[height]]
-    [] a.name \in {"getBlockWithTxHashes", "getBlockWithTxs", "getBlockWithReceipts"} -> IBlock(a.id)
+    [] a.name \in {"getBlockWithTxHashes", "getBlockWithTxs", "getBlockWithReceipts"} -> IBlock(a.id, FlagOn(a))
     [] a.name = "getBlockTransactionCount" ->
          LET n == IResolve(a.id) IN IF n = -1 THEN Err("BlockNotFound")
                                     ELSE [kind |-> "num", n |-> Len(TxsOf(byNum[n]))]
     [] a.name = "getTransactionByHash" ->
          LET pos == txIdx[a.t] IN
-         IF pos = NoIdx \/ byNum[pos.n] = NoPath THEN Err("TxnHashNotFound") ELSE TxView(TxsOf(byNum[pos.n])[pos.i + 1])
+         IF pos = NoIdx \/ byNum[pos.n] = NoPath THEN Err("TxnHashNotFound")
+         ELSE TxView(TxsOf(byNum[pos.n])[pos.i + 1], FlagOn(a))
     [] a.name = "getTransactionReceipt" ->
          LET pos == txIdx[a.t] IN
          IF pos = NoIdx \/ byNum[pos.n] = NoPath THEN Err("TxnHashNotFound")
@@ -324,7 +419,7 @@ IRes(a) ==
          LET pos == txIdx[a.t] IN
          IF pos = NoIdx \/ byNum[pos.n] = NoPath THEN Err("TxnHashNotFound")
          ELSE [kind |-> "status", fin |-> Status(pos.n, l1), exec |-> Exec(TxsOf(byNum[pos.n])[pos.i + 1])]
-    [] a.name = "getTransactionByBlockIdAndIndex" -> ITxByIndex(a.id, a.i)
+    [] a.name = "getTransactionByBlockIdAndIndex" -> ITxByIndex(a.id, a.i, FlagOn(a))
     [] a.name = "getStateUpdate" ->
          LET n == IResolve(a.id) IN
          IF n = -1 THEN Err("BlockNotFound")
@@ -339,7 +434,7 @@ IRes(a) ==
                     IF a.c \in st.declared THEN [kind |-> "class", c |-> a.c] ELSE Err("ClassHashNotFound")
                [] OTHER ->
                     IF a.c \notin Contracts \/ st.class[a.c] = NoClass THEN Err("ContractNotFound")
-                    ELSE CASE a.name = "getStorageAt" -> [kind |-> "felt", v |-> st.stor[a.c][a.s]]
+                    ELSE CASE a.name = "getStorageAt" -> IStorView(a.id, a.c, a.s, st.stor[a.c][a.s], FlagOn(a))
                            [] a.name = "getNonce" -> [kind |-> "felt", v |-> st.nonce[a.c]]
                            [] a.name = "getClassHashAt" -> [kind |-> "classhash", c |-> st.class[a.c]]
                            [] OTHER -> [kind |-> "class", c |-> st.class[a.c]]
@@ -395,6 +490,7 @@ ReadDuring(a, muts) ==
            /\ byNum' = [n \in Nums |-> IF n < Len(fin.c) THEN Prefix(fin.c, n + 1) ELSE NoPath]
            /\ numByHash' = [h \in HashIds |-> IF h \in Paths /\ IsPrefix(h, fin.c) THEN Len(h) - 1 ELSE -1]
            /\ txIdx' = [t \in DOMAIN txIdx |-> DTxPosIn(fin.c, t)]
+           /\ slog' = SLogOf(fin.c) /\ llog' = LLogOf(fin.c)
            /\ seen' = seen \cup {sts[i].c : i \in {j \in 2..Len(sts) : muts[j - 1].name = "Store"}}
            /\ reverts' = reverts + nrev
            /\ act' = [name |-> "ReadDuring", read |-> a,
@@ -441,6 +537,15 @@ GetNonce(id, c) == Read([name |-> "getNonce", id |-> id, c |-> c])
 GetClassHashAt(id, c) == Read([name |-> "getClassHashAt", id |-> id, c |-> c])
 GetClassAt(id, c) == Read([name |-> "getClassAt", id |-> id, c |-> c])
 GetClass(id, k) == Read([name |-> "getClass", id |-> id, c |-> k])
+(* the v0.10 forms with the optional response_flags parameter (f = "none": the plain request) *)
+WithFl(a, f) == IF f = "none" THEN a ELSE [fl |-> f] @@ a
+GetBlockWithTxsF(id, f) == Read(WithFl(IdArg("getBlockWithTxs", id), f))
+GetBlockWithReceiptsF(id, f) == Read(WithFl(IdArg("getBlockWithReceipts", id), f))
+GetTransactionByHashF(t, f) == Read(WithFl([name |-> "getTransactionByHash", t |-> t], f))
+GetTransactionByBlockIdAndIndexF(id, i, f) ==
+  Read(WithFl([name |-> "getTransactionByBlockIdAndIndex", id |-> id, i |-> i], f))
+GetStorageAtF(id, c, s, f) == Read(WithFl([name |-> "getStorageAt", id |-> id, c |-> c, s |-> s], f))
+GivenFlags == FlagVals \ {"none"}
 
 TxArgs == AllTx \cup {BogusTx}
 HugeIdx == 1000000       \* stands for 2^62
@@ -464,6 +569,12 @@ Next ==
                            \/ \E s \in Slots : GetStorageAt(id, c, s)
        \/ \E k \in KArgs : GetClass(id, k)
   \/ \E t \in TxArgs : GetTransactionByHash(t) \/ GetTransactionReceipt(t) \/ GetTransactionStatus(t)
+  \/ \E f \in GivenFlags :
+       \/ \E id \in BlockIds :
+            \/ GetBlockWithTxsF(id, f) \/ GetBlockWithReceiptsF(id, f)
+            \/ \E i \in {0, 2, HugeIdx} : GetTransactionByBlockIdAndIndexF(id, i, f)
+            \/ \E c \in CArgs, s \in Slots : GetStorageAtF(id, c, s, f)
+       \/ \E t \in TxArgs : GetTransactionByHashF(t, f)
 
 Spec == Init /\ [][Next]_vars
 
@@ -482,30 +593,62 @@ IndexesDescribeChain ==
   /\ \A n \in Nums : byNum[n] = IF n < Len(chain) THEN Prefix(chain, n + 1) ELSE NoPath
   /\ \A h \in HashIds : numByHash[h] = IF h \in Paths /\ IsPrefix(h, chain) THEN Len(h) - 1 ELSE -1
   /\ \A t \in DOMAIN txIdx : txIdx[t] = DTxPos(t)
+  /\ slog = SLogOf(chain) /\ llog = LLogOf(chain)
   /\ chain # <<>> => chain \in seen
 
 IsRead(a) == a.name \notin {"Init", "Store", "Revert", "SetL1Head", "Restart", "ReadDuring"}
 
-(* a read that hits one of the two known deviations of the code as it is *)
+(* a read that hits one of the known deviations of the code as it is *)
 KnownDeviation(a) ==
-  \/ /\ ~FixTxIndexMissingBlock /\ a.name = "getTransactionByBlockIdAndIndex"
+  \/ /\ ~FixTxIndexMissingBlock /\ a.name = "getTransactionByBlockIdAndIndex" /\ Fl(a) # "bad"
      /\ a.id.k = "num" /\ a.id.n >= Len(chain)
   \/ /\ ~FixZeroHashState /\ a.name \in {"getStorageAt", "getNonce", "getClassHashAt", "getClassAt", "getClass"}
-     /\ a.id.k = "hash" /\ a.id.h = ZeroHash
+     /\ a.id.k = "hash" /\ a.id.h = ZeroHash /\ Fl(a) # "bad"
+
+(* the third deviation touches ONE field: the legacy backend's last_update_block after a zero write
+   it did not log; value and the new-state backend's number must still be right *)
+LegacyLubDeviation(r, w) ==
+  /\ ~FixLegacyZeroWriteLog /\ r.kind = "feltlub" /\ w.kind = "feltlub"
+  /\ r.lubL # w.lubL /\ [r EXCEPT !.lubL = w.lubL] = w
 
 (* THE property: every answer is the data of Resolve(id) in the CURRENT chain, and an error
    exactly when the item is absent (DWant is an error iff it is) *)
 ReadsAnswerFromChain ==
-  [][IsRead(act') /\ ~KnownDeviation(act') => res' = DWant(act')]_vars
+  [][IsRead(act') /\ ~KnownDeviation(act') => res' = DWant(act') \/ LegacyLubDeviation(res', DWant(act'))]_vars
+
+(* response flags: a request without flags, with the empty list, and (fields the flag adds aside) with
+   the method's flag is answered alike; anything else in response_flags is INVALID_PARAMS *)
+StripFlagFields(r) ==
+  CASE r.kind = "feltlub" -> [kind |-> "felt", v |-> r.v]
+    [] r.kind = "tx" -> [r EXCEPT !.pf = "absent"]
+    [] r.kind = "block" -> [r EXCEPT !.pfs = [i \in DOMAIN r.pfs |-> "absent"]]
+    [] OTHER -> r
+FlagsOnlyAdd ==
+  [][IsRead(act') /\ "fl" \in DOMAIN act' =>
+       /\ (act'.fl = "bad") = (want' = Err("InvalidParams"))
+       /\ act'.fl = "bad" => res' = Err("InvalidParams")
+       /\ act'.fl # "bad" => /\ StripFlagFields(want') = DWant(Unflag(act'))
+                             /\ StripFlagFields(res') = IRes(Unflag(act'))
+       /\ act'.fl \in {"none", "empty"} => want' = DWant(Unflag(act')) /\ res' = IRes(Unflag(act'))]_vars
+
+(* last_update_block never points above the block asked for, nor at a block that did not write the
+   slot; a slot the chain never wrote (up to that block) reports 0 *)
+LastUpdateWithinChain ==
+  [][(IsRead(act') /\ want'.kind = "feltlub") =>
+       LET n == DResolve(act'.id) IN
+       /\ want'.lub <= n
+       /\ want'.lub > 0 => WroteSlot(Prefix(chain, want'.lub + 1), act'.c, act'.s)
+       /\ \A m \in (want'.lub + 1)..n : ~WroteSlot(Prefix(chain, m + 1), act'.c, act'.s)]_vars
 
 (* the repaired design has no exception at all *)
 ReadsAnswerFromChainStrict == [][IsRead(act') => res' = DWant(act')]_vars
 
 (* hashes of reverted blocks and of their transactions resolve to not-found *)
 RevertedNotFound ==
-  [][/\ (IsRead(act') /\ "id" \in DOMAIN act' /\ act'.id.k = "hash" /\ act'.id.h \in seen
+  [][/\ (IsRead(act') /\ "id" \in DOMAIN act' /\ act'.id.k = "hash" /\ act'.id.h \in seen /\ Fl(act') # "bad"
          /\ ~IsPrefix(act'.id.h, chain)) => res' = Err("BlockNotFound")
-     /\ (IsRead(act') /\ "t" \in DOMAIN act' /\ DTxPos(act'.t) = NoIdx) => res' = Err("TxnHashNotFound")]_vars
+     /\ (IsRead(act') /\ "t" \in DOMAIN act' /\ Fl(act') # "bad" /\ DTxPos(act'.t) = NoIdx)
+          => res' = Err("TxnHashNotFound")]_vars
 
 (* nothing is ACCEPTED_ON_L1 above the recorded L1 head, and everything at or below it is *)
 FinalityFromL1Head ==
